@@ -1,6 +1,7 @@
 (* c18_driver: evaluate the extracted connection set-up model (Model/Sasl.v, run_case) on the
    harness's cases.
    input  line: <id> run <path> <mech> <hsmax> <authmax> <cred> <fstep> <fkind> <credidx> | ...
+                <id> rawread <path> <mech> <cred> <fstep> <prefix> <npayload> <close|silent> | ...
    output line: <id> J=<journal> E=<0|1> C=<0|1>   |   <id> MECHERR
 
    The journal is the model's trace as the scripted broker of harness/saslfake would
@@ -30,16 +31,21 @@ let is_fault_reaction = function
   | ROk _ -> false
   | _ -> true
 
-let render (s : nat state) : string =
+(* [fault_at]: the index (among the broker's reactions) of an injected raw response, which
+   the broker journals as a fault whatever its content *)
+let render ?(fault_at = -1) (s : nat state) : string =
   begin
     let failed = ref false in
+    let nrecv = ref 0 in
     let toks = ref [] in
     let add t = toks := (if !failed then t ^ "!" else t) :: !toks in
     List.iter (fun e ->
       match e with
       | ESend (MReq (k, v)) -> add (hex_of_z k ^ "." ^ hex_of_z v)
       | ESend MRaw -> add "raw"
-      | ERecv r -> if is_fault_reaction r then failed := true
+      | ERecv r ->
+        if is_fault_reaction r || !nrecv = fault_at then failed := true;
+        incr nrecv
       | EVerdict -> if not !failed then toks := "V" :: !toks
       | EHandOut | EClose -> ()) (trace s);
     let j = if !toks = [] then "." else String.concat "," (List.rev !toks) in
@@ -62,6 +68,21 @@ let eval (op : string) (a : string list) : string =
         else Some (nat_of_int (int_of_z (z_of_hex fstep)), reaction_of_kind fkind) in
       render (run_case p adv k c fault)
     end
+  | "rawread", [path; mech; cred; fstep; prefix; npayload; ending] ->
+    let p = (match path with "d" -> Dialer | "t" -> Transport | _ -> failwith "path") in
+    let k = (match mech with "plain" -> MPlain | "s256" | "s512" -> MScram | _ -> failwith "mech") in
+    let c = (match cred with
+        | "right" -> CredRight | "wrongpw" -> CredWrongPassword | "nouser" -> CredUnknownUser
+        | _ -> failwith "cred") in
+    let step = int_of_z (z_of_hex fstep) in
+    let avail = List.init (int_of_z (z_of_hex npayload)) (fun _ -> z_of_int 106) in
+    let e = (match ending with "close" -> EndClose | "silent" -> EndSilence | _ -> failwith "ending") in
+    let (s, r) = run_raw_case p k c (nat_of_int step) (z_of_hex prefix) avail e in
+    let cls = (match r.rr_out with
+        | RROk _ -> if handed_out s then "ok" else "mech"
+        | RREof -> "eof" | RRUnexpectedEof -> "ueof" | RRProtocol -> "proto" | RRTimeout -> "timeout") in
+    (* the model's allocation and received-payload counters travel after " ; " (not compared) *)
+    render ~fault_at:step s ^ " K=" ^ cls ^ " ; malloc=" ^ hex_of_n r.rr_alloc ^ " mrecv=" ^ hex_of_n r.rr_received
   | _ -> "BADCASE"
 
 let () = run_lines (fun line ->
